@@ -44,7 +44,7 @@ def variants_for(pid, i, model, tier):
     m = MODELS[model]
     sc = m["scales"]
     base = dict(scale=sc[i % len(sc)], seed=i, req_alg=ALGS[i % 3], resp_alg=ALGS[(i // 3) % 3],
-                cred_variant=(i // 2) % 3, seal=("ext" if i % 2 == 0 else "lib"),
+                cred_variant=(i // 2) % 4, seal=("ext" if i % 2 == 0 else "lib"),
                 other_tid=("outstanding" if (i // 2) % 2 == 0 else "fresh"))
     if i % 4 == 1:
         base["remote_addr"] = "a6"      # an agent associated with one peer; destinations are still per send
@@ -53,6 +53,7 @@ def variants_for(pid, i, model, tier):
         vs.append(dict(base, base_ms=10 ** 9, tag="shift"))
         vs.append(dict(base, base_off_ms=-3000, tag="origin 3 s before the real clock"))
         vs.append(dict(base, thread=True, decoys=3, tag="thread+decoys"))
+        vs.append(dict(base, subscriber=True, tag="tracing subscriber installed"))
         if tier == "thorough":
             vs.append(dict(base, base_ms=123456789, decoys=5, thread=True, tag="all"))
     return vs
@@ -77,7 +78,7 @@ def b1_model(pid, tier, seed, model, wd):
     if deep:
         words += gen_cover_words(l, 2, rng, per_state=8)
     if pid == "C20" and tier == "quick":
-        words = words[::4]
+        words = words[::5]
     scripts = []
     meta = {}
     for i, w in enumerate(words):
@@ -147,6 +148,10 @@ def b1_model(pid, tier, seed, model, wd):
 # --------------------------------------------------------------------------- B2: random real-valued histories
 def rand_history(rng, hid, transport, nsteps, ntids=8, maxrto=60000):
     addrs = ["a1", "a2", "a3", "a4", "a5", "a6"]
+    if rng.random() < 0.12:
+        # many distinct peers (a population larger than any small fixed-size table)
+        addrs = ["a%d" % i for i in range(1, 49)]
+        nsteps = max(nsteps, 140)
     keys = ["k1", "k2"]
     steps = []
     live = []
@@ -180,7 +185,7 @@ def rand_history(rng, hid, transport, nsteps, ntids=8, maxrto=60000):
         elif r < 0.62:
             steps.append({"a": "recv", "cls": "response", "tid": t, "from": rng.choice(addrs),
                           "integ": rng.choice(["none", "k1", "k2", "corrupt"]), "alg": rng.choice(ALGS)})
-        elif r < 0.66:
+        elif r < (0.66 if len(addrs) <= 6 else 0.80):
             steps.append({"a": "recv", "cls": rng.choice(["request", "indication"]), "tid": t, "from": rng.choice(addrs)})
         elif r < 0.78:
             steps.append({"a": "poll"})
@@ -200,7 +205,7 @@ def rand_history(rng, hid, transport, nsteps, ntids=8, maxrto=60000):
                           "pay": rng.choice(["p1", "p2"])})
     return {"id": hid, "seed": rng.randrange(1 << 30), "transport": transport, "scale": 1, "probe": True,
             "ntids": ntids, "steps": steps, "req_alg": rng.choice(ALGS), "resp_alg": rng.choice(ALGS),
-            "cred_variant": rng.randrange(2)}
+            "cred_variant": rng.randrange(4)}
 
 
 def _obs_fields(o):
